@@ -491,7 +491,7 @@ class Machine:
         n = len(path)
         while i < n:
             if isinstance(node, Abs):
-                raise AbstractionBreach("load through abstract leaf %r path %r" % (node, path))
+                node = self._materialize(node, "load through abstract leaf %r path %r" % (node, path))
             e = path[i]
             if isinstance(e, tuple):  # ('win', off, n): virtual sub-array
                 _, off, cnt = e
@@ -555,11 +555,22 @@ class Machine:
         if isinstance(a, Abs) and isinstance(b, Abs):
             h = self.abs_merge
             return h(c, a, b)
+        if isinstance(a, Abs) and isinstance(b, (list, tuple)):
+            return self.merge(c, self._materialize(a, "merge of abstract and concrete value"), b)
+        if isinstance(b, Abs) and isinstance(a, (list, tuple)):
+            return self.merge(c, a, self._materialize(b, "merge of abstract and concrete value"))
         if a == b:
             return a
         raise Unsupported("merge of %r / %r" % (a, b))
 
     abs_merge = None
+    abs_materialize = None     # {kind: fn(Abs) -> concrete tree}: lets code that reaches below an abstract leaf run on a concrete image
+
+    def _materialize(self, node, why):
+        f = (self.abs_materialize or {}).get(node.kind)
+        if f is None:
+            raise AbstractionBreach(why)
+        return self._copy_in(f(node))
 
     def store(self, p, v):
         if p.obj is None:
@@ -572,6 +583,8 @@ class Machine:
         if not p.path:
             o.tree = v
             return
+        if isinstance(o.tree, Abs):
+            o.tree = self._materialize(o.tree, "store through abstract leaf %r" % (o.tree,))
         self._store(o.tree, p.path, 0, v, True)
 
     def _store(self, node, path, i, v, guard):
@@ -579,6 +592,8 @@ class Machine:
         last = i == len(path) - 1
         if isinstance(node, Abs):
             raise AbstractionBreach("store through abstract leaf %r" % (node,))
+        if not isinstance(e, (tuple, T)) and not last and isinstance(node[e], Abs):
+            node[e] = self._materialize(node[e], "store through abstract leaf %r" % (node[e],))
         if isinstance(e, tuple):
             _, off, cnt = e
             if last:
@@ -593,11 +608,15 @@ class Machine:
                     if last2:
                         node[off + k] = self.merge(g, v, node[off + k])
                     else:
+                        if isinstance(node[off + k], Abs):
+                            node[off + k] = self._materialize(node[off + k], "store through abstract leaf")
                         self._store(node[off + k], path, i + 2, v, g)
                 return
             if last2:
                 node[off + j] = v if guard is True else self.merge(guard, v, node[off + j])
             else:
+                if isinstance(node[off + j], Abs):
+                    node[off + j] = self._materialize(node[off + j], "store through abstract leaf")
                 self._store(node[off + j], path, i + 2, v, guard)
             return
         if isinstance(e, T):
@@ -606,6 +625,8 @@ class Machine:
                 if last:
                     node[j] = self.merge(g, v, node[j])
                 else:
+                    if isinstance(node[j], Abs):
+                        node[j] = self._materialize(node[j], "store through abstract leaf")
                     self._store(node[j], path, i + 1, v, g)
             return
         if last:
@@ -1023,7 +1044,7 @@ def _i_fieldaddr(m, fr, I):
 def _i_field(m, fr, I):
     v = m.value(fr, I['x'])
     if isinstance(v, Abs):
-        raise AbstractionBreach("Field of abstract value")
+        v = m._materialize(v, "Field of abstract value")
     fr[I['n']] = v[I['idx']]
 
 
